@@ -132,9 +132,9 @@ Variable tmpl : list limiter.
 Hypothesis Htmpl : charge_init (limiters0 c) (c_init c) = Some tmpl.
 Notation P args := (process arg (list limiter) tmpl accf (fatalf c) (c_r c) tmpl [] false args []).
 
-Lemma run_factor args os :
+Lemma run_factor args os : c_replace c = false ->
   xargs_run c args false os = finish c (P args) {| res := Success; outs := os; log := [] |}.
-Proof. unfold xargs_run. rewrite Htmpl. apply process_x_factor. Qed.
+Proof. intros Hnr. unfold xargs_run. rewrite Htmpl. now apply process_x_factor. Qed.
 
 Lemma tmpl_eq : tmpl = map (advi (c_init c)) (limiters0 c).
 Proof. now apply charge_init_spec. Qed.
@@ -208,7 +208,7 @@ Qed.
 Definition batches_of (o : outcome arg) : list (list arg) := match o with Ran bs | TooLarge bs => bs end.
 
 (* no fatal outcome: every batch is run, in order; the status is 0, 123, or 1 for an argument that cannot be placed *)
-Theorem run_no_fatal args os :
+Theorem run_no_fatal args os : c_replace c = false ->
   really_runs args ->
   let bs := batches_of (P args) in
   (length bs <= length os)%nat -> forallb nonfatal (firstn (length bs) os) = true ->
@@ -217,20 +217,20 @@ Theorem run_no_fatal args os :
    | Ran _ => if forallb exit_zero (firstn (length bs) os) then 0 else 123
    | TooLarge _ => 1 end, bs).
 Proof.
-  intros Hrr bs Hl Hn. rewrite run_factor. pose proof (batches_run args Hrr) as Hr. unfold bs in *.
+  intros Hnr Hrr bs Hl Hn. rewrite run_factor by exact Hnr. pose proof (batches_run args Hrr) as Hr. unfold bs in *.
   destruct (P args) as [b|b]; cbn [batches_of finish] in *.
   - rewrite (exec_all_run c); cbn [outs res log app]; try assumption. now rewrite status_fold.
   - rewrite (exec_all_run c); cbn [outs res log app]; try assumption. reflexivity.
 Qed.
 
 (* the first fatal outcome stops the run at once, with its own status *)
-Theorem run_first_fatal args pre o post :
+Theorem run_first_fatal args pre o post : c_replace c = false ->
   really_runs args ->
   let bs := batches_of (P args) in
   forallb nonfatal pre = true -> nonfatal o = false -> (length pre < length bs)%nat ->
   xargs_run c args false (pre ++ o :: post) = (fatal_code o, firstn (S (length pre)) bs).
 Proof.
-  intros Hrr bs Hp Ho Hl. rewrite run_factor. pose proof (batches_run args Hrr) as Hr. unfold bs in *.
+  intros Hnr Hrr bs Hp Ho Hl. rewrite run_factor by exact Hnr. pose proof (batches_run args Hrr) as Hr. unfold bs in *.
   destruct (P args) as [b|b]; cbn [batches_of finish] in *;
     rewrite (exec_all_fatal c pre o post); cbn [outs log app]; auto.
 Qed.
@@ -264,12 +264,42 @@ Theorem input_error_status c tmpl : forall args ls cur p st, forallb nonfatal (o
   fst (process_x c tmpl ls cur p args true st) = 1.
 Proof.
   induction args as [|a rest IH]; intros ls cur p st H; [reflexivity|].
-  cbn [process_x]. destruct (try_arg ls a); [now apply IH|].
+  cbn [process_x]. destruct (try_arg ls a).
+  { destruct (c_replace c); [|now apply IH].
+    destruct (exec_nonfatal_cases c st (cur ++ [a]) H) as [(st' & E & H')|(l & E)]; rewrite E; [now apply IH|reflexivity]. }
   destruct (fatalf c ls a); [reflexivity|].
+  assert (Hretry : forall st1, forallb nonfatal (outs st1) = true ->
+            fst (match try_arg tmpl a with
+                 | Acc ls' => if c_replace c
+                              then match exec c st1 [a] with inr stop => stop | inl st'' => process_x c tmpl tmpl [] false rest true st'' end
+                              else process_x c tmpl ls' [a] true rest true st1
+                 | Refuse _ => (1, log st1) end) = 1).
+  { intros st1 H1. destruct (try_arg tmpl a); [|reflexivity]. destruct (c_replace c); [|now apply IH].
+    destruct (exec_nonfatal_cases c st1 [a] H1) as [(st' & E & H')|(l & E)]; rewrite E; [now apply IH|reflexivity]. }
   destruct p.
   - destruct (exec_nonfatal_cases c st cur H) as [(st' & E & H')|(l & E)]; rewrite E; [|reflexivity].
-    destruct (try_arg tmpl a); [|reflexivity]. now apply IH.
-  - destruct (try_arg tmpl a); [|reflexivity]. now apply IH.
+    now apply Hretry.
+  - now apply Hretry.
+Qed.
+
+(* ---------- -I: one run per line, each as soon as the line has been read ---------- *)
+Definition finish_lines (ie : bool) (r : xs + (N * list (list arg))) : N * list (list arg) :=
+  match r with
+  | inl st' => (if ie then 1 else status_ok (res st'), log st')
+  | inr stop => stop
+  end.
+(* [ie]: the reader fails after the last of [args] - the lines before it have been run all the same *)
+Theorem replace_eager c tmpl : c_replace c = true -> forall args ie st,
+  Forall (fun a => exists ls', try_arg tmpl a = Acc ls') args ->
+  process_x c tmpl tmpl [] false args ie st = finish_lines ie (exec_all c st (map (fun a => [a]) args)).
+Proof.
+  intros Hr. induction args as [|a rest IH]; intros ie st Hf.
+  - cbn [process_x map exec_all finish_lines]. destruct ie; [reflexivity|].
+    rewrite orb_false_r. destruct (negb (c_r c)); [|reflexivity].
+    unfold exec. rewrite Hr. cbn. reflexivity.
+  - inversion Hf as [|? ? (ls' & Ea) Hf']; subst.
+    cbn [process_x map exec_all]. rewrite Ea, Hr. cbn [app].
+    destruct (exec c st [a]) as [st'|stop]; [now apply IH|reflexivity].
 Qed.
 
 
@@ -309,4 +339,38 @@ Proof.
   destruct (process _ _ _ _ _ _ _ _ _ _ _) as [bs|bs].
   - destruct H as (E & Hg & _). specialize (Hg Hne). now apply (singletons c).
   - destruct H as (pre & a & post & E & Hg & Hc). now apply (singletons c).
+Qed.
+
+(* the exit status and the invocations of a -I run: every line is run (also the ones before an input error: ie), until a fatal outcome *)
+Definition line_runs (c : config) (tmpl : list limiter) (a : arg) : Prop :=
+  (exists ls', try_arg tmpl a = Acc ls') /\ subst_fits c [a] = true.
+
+Lemma single_runs c tmpl args : c_replace c = true -> Forall (line_runs c tmpl) args ->
+  Forall (runs c) (map (fun a => [a]) args).
+Proof.
+  intros Hr H. induction H as [|a args [_ Ha] _ IH]; cbn [map]; constructor; [|exact IH].
+  right. split; [discriminate|exact Ha].
+Qed.
+
+Theorem replace_no_fatal c tmpl args ie os : c_replace c = true ->
+  charge_init (limiters0 c) (c_init c) = Some tmpl -> Forall (line_runs c tmpl) args ->
+  (length args <= length os)%nat -> forallb nonfatal (firstn (length args) os) = true ->
+  xargs_run c args ie os =
+  (if ie then 1 else if forallb exit_zero (firstn (length args) os) then 0 else 123, map (fun a => [a]) args).
+Proof.
+  intros Hr Ht Hl Hlen Hn. unfold xargs_run. rewrite Ht.
+  rewrite (replace_eager c tmpl Hr) by (eapply Forall_impl; [|exact Hl]; intros a [H _]; exact H).
+  rewrite (exec_all_run c); cbn [outs res log app]; rewrite ?map_length; try assumption; [|now apply (single_runs c tmpl)].
+  cbn [finish_lines res log]. destruct ie; [reflexivity|]. now rewrite status_fold.
+Qed.
+
+Theorem replace_first_fatal c tmpl args ie pre o post : c_replace c = true ->
+  charge_init (limiters0 c) (c_init c) = Some tmpl -> Forall (line_runs c tmpl) args ->
+  forallb nonfatal pre = true -> nonfatal o = false -> (length pre < length args)%nat ->
+  xargs_run c args ie (pre ++ o :: post) = (fatal_code o, firstn (S (length pre)) (map (fun a => [a]) args)).
+Proof.
+  intros Hr Ht Hl Hp Ho Hlen. unfold xargs_run. rewrite Ht.
+  rewrite (replace_eager c tmpl Hr) by (eapply Forall_impl; [|exact Hl]; intros a [H _]; exact H).
+  rewrite (exec_all_fatal c pre o post); cbn [outs log app finish_lines]; rewrite ?map_length; auto.
+  now apply (single_runs c tmpl).
 Qed.
